@@ -685,8 +685,9 @@ func genSimpleBlock(dt *drv.T, pc ProgCfg, where string) []*Stmt {
 func genRepeatStmt(dt *drv.T, pc ProgCfg, label *int) *Stmt {
 	st := &Stmt{Op: "repeat"}
 	na := drv.IntRange(1, 4).Draw(dt, "nactions")
+	names := actionNames(dt)
 	for i := 0; i < na; i++ {
-		a := &Action{Name: fmt.Sprintf("a%d", i)}
+		a := &Action{Name: names[i]}
 		shape := pick(dt, "ashape", "draw", "draw", "skipfirst", "skipafter", "condskip", "plain")
 		if pc.NoSkipInSM && shape != "draw" {
 			shape = "plain"
@@ -713,6 +714,20 @@ func genRepeatStmt(dt *drv.T, pc ProgCfg, label *int) *Stmt {
 		}
 	}
 	return st
+}
+
+// actionNames picks a naming scheme for the actions of a state machine: plain, names that differ only in
+// case, names that are prefixes of each other, non-ASCII names.
+func actionNames(dt *drv.T) []string {
+	switch pick(dt, "naming", "plain", "plain", "case", "prefix", "unicode") {
+	case "case":
+		return []string{"act", "Act", "ACT", "aCt", "acT", "AcT"}
+	case "prefix":
+		return []string{"a", "aa", "aaa", "a ", "a-", "aA"}
+	case "unicode":
+		return []string{"ä", "Ä", "б", "Б", "ǅ", "ǆ"}
+	}
+	return []string{"a0", "a1", "a2", "a3", "a4", "a5"}
 }
 
 func progDraw(dt *drv.T, pc ProgCfg, label *int) *Stmt {
